@@ -81,7 +81,17 @@ func runProperty(pc *PropCfg, repo, verif, tier string, update bool) *propResult
 		err  error
 	}
 	var failedUnits []unitErr
-	for _, fk := range pc.Functions {
+	// the functions named by the property, closed under "calls a function by its (non-trusted) contract":
+	// a check must verify every body whose contract it relies on, or a change in that body would go unseen
+	work := append([]string{}, pc.Functions...)
+	seenFn := map[string]bool{}
+	for len(work) > 0 {
+		fk := work[0]
+		work = work[1:]
+		if seenFn[fk] {
+			continue
+		}
+		seenFn[fk] = true
 		u, err := e.verifyFunc(fk)
 		if err != nil {
 			failedUnits = append(failedUnits, unitErr{fk, err})
@@ -96,6 +106,14 @@ func runProperty(pc *PropCfg, repo, verif, tier string, update bool) *propResult
 		for _, n := range u.notes {
 			r.assumptions[n] = true
 		}
+		var more []string
+		for k := range e.calledContracts {
+			if !seenFn[k] {
+				more = append(more, k)
+			}
+		}
+		sort.Strings(more)
+		work = append(work, more...)
 	}
 	for _, ln := range pc.Lemmas {
 		u, err := e.verifyLemma(ln)
